@@ -97,12 +97,33 @@ theorem sources_arg_eq_inline (b : Bool) (s1 s2 : List LScope) (h : s1.map LScop
     (lineageOne (genCfg b) s1 root column).1.leaves = (lineageOne (genCfg b) s2 root column).1.leaves := by
   rw [lineageOne_eq_flow, lineageOne_eq_flow, flow_of_eraseTag_eq h]
 
-/-- **alias renaming**: renaming every table alias by an injective function does not change the leaves -/
+/-- **alias renaming, per scope**: every scope `k` may be renamed by its own `ρs k`, which only has to be injective
+    on the aliases / column qualifiers that scope mentions (`LScope.names`); the leaves do not change -/
+theorem alias_renaming_invariant_per_scope (b : Bool) (ρs : Nat → String → String) (scopes : List LScope)
+    (hρ : ∀ k sc, scopes[k]? = some sc → InjOn (ρs k) sc.names) (root : Nat) (column : String) :
+    (lineageOne (genCfg b) (renameScopes ρs scopes) root column).1.leaves =
+      (lineageOne (genCfg b) scopes root column).1.leaves := by
+  rw [lineageOne_eq_flow, lineageOne_eq_flow, flow_renameScopes ρs scopes hρ]
+
+/-- **alias renaming** (corollary): one globally injective renaming applied to every scope -/
 theorem alias_renaming_invariant (b : Bool) (ρ : String → String) (hρ : ∀ x y, ρ x = ρ y → x = y)
     (scopes : List LScope) (root : Nat) (column : String) :
     (lineageOne (genCfg b) (scopes.map (LScope.rename ρ)) root column).1.leaves =
       (lineageOne (genCfg b) scopes root column).1.leaves := by
-  rw [lineageOne_eq_flow, lineageOne_eq_flow, flow_rename hρ]
+  rw [← renameScopes_const]
+  exact alias_renaming_invariant_per_scope b (fun _ => ρ) scopes (fun _ _ _ x _ y _ e => hρ x y e) root column
+
+/-- non-vacuity of the per-scope hypothesis: scope 1 of `cteTwice` renamed by a NON-injective map that is injective
+    on its two aliases (`p ↦ q2`, everything else ↦ `q1`) -/
+example : InjOn (fun s => if s = "p" then "q2" else "q1")
+    (LScope.select [⟨"x", [("p", "a"), ("q", "b")], []⟩] ⟨"", [], []⟩
+      [("p", .scope 0 false none none), ("q", .scope 0 false none none)]).names := by
+  have h : (LScope.select [⟨"x", [("p", "a"), ("q", "b")], []⟩] ⟨"", [], []⟩
+      [("p", .scope 0 false none none), ("q", .scope 0 false none none)]).names = ["p", "q", "p", "q"] := rfl
+  rw [h]
+  intro x hx y hy
+  simp only [List.mem_cons, List.not_mem_nil, or_false] at hx hy
+  rcases hx with rfl | rfl | rfl | rfl <;> rcases hy with rfl | rfl | rfl | rfl <;> decide
 
 /-- a non-trivial injective renaming: swap `p` and `q` -/
 def swapPQ (x : String) : String := if x = "p" then "q" else if x = "q" then "p" else x
@@ -156,6 +177,38 @@ example : (cteTwice true (some "c")).map LScope.eraseCte = (cteTwice false none)
 
 theorem cteTwice_ok :
     (lineageOne (genCfg true) (cteTwice true (some "c")) 1 "x").1.leaves = [("t", "a"), ("t", "b")] := by
+  decide +kernel
+
+
+/-! ### `sources=` : `exp.expand` modelled, not assumed -/
+
+/-- **expand then lineage = inline**: instantiating the `sources` definitions as `exp.expand` does (a fresh, tagged
+    derived-table copy per reference, recursively; `Model.expandQ some`) and writing the same derived tables inline by
+    hand (`expandQ (fun _ => none)`, no tags) give the same root and the same leaves for every output column,
+    for every definition list (also cyclic or dangling ones: explicit error scope) and every fuel. -/
+theorem expand_then_lineage_eq_inline (b : Bool) (defs : List SrcDef) (fuel : Nat) (main : List LScope) (column : String) :
+    (lineageOne (genCfg b) (expandQ some defs fuel main).1 (expandQ some defs fuel main).2 column).1.leaves =
+      (lineageOne (genCfg b) (expandQ (fun _ => none) defs fuel main).1 (expandQ (fun _ => none) defs fuel main).2
+        column).1.leaves := by
+  obtain ⟨h1, h2⟩ := expandQ_sim some (fun _ => none) defs fuel main
+  rw [h2]
+  exact sources_arg_eq_inline b _ _ h1 _ column
+
+/-- `sources={'s2': 'SELECT t.a AS a FROM t', 's1': 'SELECT w.a AS x FROM s2 AS w'}`,
+    main `SELECT p.x AS y, q.x AS z FROM s1 AS p CROSS JOIN s1 AS q` (a source referenced twice, a source using a source) -/
+def expDefs : List SrcDef :=
+  [ ⟨"s2", [.select [⟨"a", [("t", "a")], []⟩] noFb [("t", .table "t")]]⟩,
+    ⟨"s1", [.select [⟨"x", [("w", "a")], []⟩] noFb [("w", .table "s2")]]⟩ ]
+
+def expMain : List LScope :=
+  [ .select [⟨"y", [("p", "x")], []⟩, ⟨"z", [("q", "x")], []⟩] noFb [("p", .table "s1"), ("q", .table "s1")] ]
+
+/-- non-vacuity: the expansion has 5 scopes (two copies of s1, each with its own copy of s2), root 4, and both
+    columns reach `t.a`; without the definitions the columns end in the unexpanded table `s1` -/
+theorem expand_example :
+    (expandQ some expDefs 3 expMain).1.length = 5 ∧ (expandQ some expDefs 3 expMain).2 = 4 ∧
+      lineageAll (genCfg true) (expandQ some expDefs 3 expMain).1 4 ["y", "z"] [] = [[("t", "a")], [("t", "a")]] ∧
+      lineageAll (genCfg true) (expandQ some [] 3 expMain).1 0 ["y", "z"] [] = [[("s1", "x")], [("s1", "x")]] := by
   decide +kernel
 
 end SqlglotModel.Properties.C17
